@@ -47,7 +47,12 @@ def main():
         meta["suite_passes_with_change"] = rc == 0
         meta["ran"].append("go build ./... && go test -vet=off -count=1 ./...  (with change): rc=%d" % rc)
         demo = os.path.join(wt, pkgdir, "zz_seed_demo_test.go")
-        shutil.copy(os.path.join(dst, "demo_test.go"), demo)
+        def put_demo():
+            # demos that carry a build tag (to keep them out of ./...) are copied without it
+            txt = open(os.path.join(dst, "demo_test.go")).read()
+            txt = "\n".join(l for l in txt.split("\n") if not l.startswith("//go:build") and not l.startswith("// +build"))
+            open(demo, "w").write(txt)
+        put_demo()
         cmd = f"go test -vet=off -count=1 -timeout 300s -run '{pattern}' ./{pkgdir}"
         rc, out = run(cmd, cwd=wt)
         meta["demo_fails_with_change"] = rc != 0
@@ -55,7 +60,7 @@ def main():
         meta["demo_output_with_change"] = out[-1500:]
         os.remove(demo)
         run("git checkout -- .", cwd=wt)
-        shutil.copy(os.path.join(dst, "demo_test.go"), demo)
+        put_demo()
         rc, out = run(cmd, cwd=wt)
         meta["demo_passes_without_change"] = rc == 0
         meta["ran"].append(f"{cmd} (without change): rc={rc}")
